@@ -19,6 +19,7 @@ import (
 
 	"verif/lib/canon"
 	"verif/lib/ev"
+	"verif/lib/hostile"
 	"verif/lib/schema"
 	"verif/lib/ymodel"
 	"verif/lib/yref"
@@ -30,6 +31,10 @@ type Case struct {
 	Runs    int             `json:"runs"`
 	Ignore  bool            `json:"ignore_not_supported,omitempty"`
 	CLI     bool            `json:"cli,omitempty"`
+	// Lenient: processing goes on after a text was rejected at load (as the command line does); used with the
+	// hostile texts, most of which hold a rejected file.
+	Lenient    bool `json:"lenient,omitempty"`
+	IgnoreCirc bool `json:"ignore_circular,omitempty"`
 	// Features the generator put in (for classes and signatures)
 	Features []string `json:"features,omitempty"`
 }
@@ -75,6 +80,7 @@ func (r result) String() string {
 func run(c Case, perm []int) result {
 	ms := yang.NewModules()
 	ms.ParseOptions.DeviateOptions.IgnoreDeviateNotSupported = c.Ignore
+	ms.ParseOptions.IgnoreSubmoduleCircularDependencies = c.IgnoreCirc
 	var res result
 	perFile := make([]string, len(c.Sources))
 	for _, i := range perm {
@@ -88,7 +94,7 @@ func run(c Case, perm []int) result {
 			res.parseErrs = append(res.parseErrs, c.Sources[i].Name+" => "+e)
 		}
 	}
-	if len(res.parseErrs) > 0 {
+	if len(res.parseErrs) > 0 && !c.Lenient {
 		return res
 	}
 	errs := ms.Process()
@@ -97,6 +103,15 @@ func run(c Case, perm []int) result {
 		res.dump = dump(ms)
 	}
 	return res
+}
+
+func dupLoad(r result) bool {
+	for _, e := range r.parseErrs {
+		if strings.Contains(e, "duplicate") {
+			return true
+		}
+	}
+	return false
 }
 
 func featureClass(c Case) string {
@@ -165,6 +180,11 @@ func check(c Case) (o ev.Outcome) {
 						}
 						lastFile, lastLine, lastCol = m[1], l, cc
 					}
+				}
+				if pi > 0 && r == 0 && first != nil && (dupLoad(*first) || dupLoad(res)) {
+					// which of two texts of one module is the duplicate depends, rightly, on the load order:
+					// such sets are compared run against run within each order only
+					first = nil
 				}
 				if first == nil {
 					first = &res
@@ -484,9 +504,37 @@ func genRevisions(t *rapid.T) Case {
 	return c
 }
 
+// genHostile: wrong, cyclic, contradictory and incomplete texts (the generators of C01). Whatever comes back -
+// mostly errors - must come back the same in every run and load order.
+func genHostile(t *rapid.T) Case {
+	h := hostile.Gen(t)
+	c := Case{Runs: 3, Lenient: true, Ignore: h.IgnoreNotSupp, IgnoreCirc: h.IgnoreCirc, Features: []string{"hostile/" + h.Gen}}
+	seen := map[string]bool{}
+	for _, f := range h.Files {
+		if seen[f.Name] {
+			continue // one text per file name: positions in errors name the file
+		}
+		seen[f.Name] = true
+		c.Sources = append(c.Sources, ymodel.Source{Name: f.Name, Text: f.Text})
+	}
+	n := len(c.Sources)
+	idx := make([]int, n)
+	for i := range idx {
+		idx[i] = i
+	}
+	c.Perms = append(c.Perms, idx)
+	for i := 0; i < 4 && n > 1; i++ {
+		c.Perms = append(c.Perms, schema.Order(t, n))
+	}
+	return c
+}
+
 func gen(t *rapid.T) Case {
 	if rapid.IntRange(0, 7).Draw(t, "revision-scenario") == 0 {
 		return genRevisions(t)
+	}
+	if rapid.IntRange(0, 4).Draw(t, "hostile-scenario") == 0 {
+		return genHostile(t)
 	}
 	o := ymodel.DefaultOpts()
 	o.Budget = 18
